@@ -168,6 +168,8 @@ def build(run):
                             covers=["three hyphens become a dash reachable", "token with hyphens and other characters reachable"],
                             claim="Some(dash) only for tokens made of hyphens alone (>= 2), and the dash is U+2014 or U+2015")], timeout=900)
 
+    crate_i, lemmas_i = mc_lemma(run)
+    run.kani(crate_i, lemmas_i, timeout=900)
     crate_h, lemma_h = ws_lemma(run)
     run.kani(crate_h, [lemma_h], timeout=900 if run.tier == "quick" else 3000)
     crate_g, lemmas_g = mms_loss_lemma(run)
@@ -314,6 +316,76 @@ def mms_loss_lemma(run):
                         role=lambda v, o: "sibling-between-script-and-base-dropped",
                         covers=["the conversion returns reachable"],
                         claim="every visible token of the row is still under one of the row's children after the conversion") for k, sh in enumerate(shapes)]
+
+
+
+# ======================================================================================================================
+# D-C01-i: merge_chars (runs of leaves holding only '_' are merged into the first leaf of the run) keeps every '_' and every other child
+MC_SHIM = r"""
+#[cfg(kani)] use rxmock::Regex;
+#[cfg(not(kani))] use regex::Regex;
+fn go(n: usize, code: usize) {
+    let row = dom::new_node(5);
+    let mut kind = [0usize; 4];            // 0 = <mi>_</mi>, 1 = <mi>x</mi>, 2 = <mfrac/> (not a leaf)
+    let mut ids = [0u8; 4];
+    let mut c = code; let mut i = 0; let mut want = 0;
+    while i < 4 {
+        if i < n {
+            kind[i] = c % 3; c /= 3;
+            let e = match kind[i] { 0 => { let e = dom::new_node(0); dom::set_leaf(e, 21); want += 1; e } 1 => { let e = dom::new_node(0); dom::set_leaf(e, 4); e } _ => dom::new_node(9) };
+            ids[i] = e.id; row.append_child_id(e.id);
+        }
+        i += 1;
+    }
+    let merged = merge_chars(row, &IS_UNDERSCORE);                                     // must not panic
+    cover!(n >= 3 && kind[n - 3] == 0 && kind[n - 2] == 0 && kind[n - 1] == 2, "run of two underscores ended by a non-leaf reachable");
+    cover!(n >= 3 && kind[n - 3] == 1 && kind[n - 2] == 0 && kind[n - 1] == 0, "run of two underscores at the end reachable");
+    // every '_' is still there, every other child is still there in order, nothing was added
+    let children = merged.children();
+    let mut have = 0; let mut j = 0; let mut k = 0;
+    while k < 4 {
+        if k < n && kind[k] != 0 {
+            while j < children.len() && is_leaf(as_element(children[j])) && as_text(as_element(children[j])).as_bytes()[0] == b'_' { have += as_text(as_element(children[j])).len(); j += 1; }
+            assert!(j < children.len() && as_element(children[j]).id == ids[k], "merging '_' leaves removed or reordered another child");
+            j += 1;
+        }
+        k += 1;
+    }
+    while j < children.len() { let e = as_element(children[j]); assert!(is_leaf(e) && as_text(e).as_bytes()[0] == b'_', "merging '_' leaves added a child"); have += as_text(e).len(); j += 1; }
+    assert!(have == want, "merging a run of '_' leaves lost (or invented) underscore characters");
+}
+MC_HARNESSES
+"""
+
+
+def mc_lemma(run):
+    import rxsmt, tables
+    c = slicer.Source.get("src/canonicalize.rs")
+    f = c.find("fn clean_mathml", "fn merge_chars")
+    run.uses(f)
+    pat, sp = tables.lazy_regex(c, "IS_UNDERSCORE")
+    run.uses(sp)
+    # quick: every row of 1..3 children; thorough: additionally every row of 4 children (three harnesses of 27 rows: one harness of 120 rows exhausts 12 GB)
+    groups = [("merge_chars_rows_up_to_3", [(n, code) for n in range(1, 4) for code in range(3 ** n)])]
+    if run.tier == "thorough":
+        groups += [("merge_chars_rows_of_4_%d" % g, [(4, code) for code in range(81) if code % 3 == g]) for g in range(3)]
+    hs = []
+    for hname, cases in groups:
+        hs.append("HARNESS(%s, 12, [std::string::ToString::to_string => to_string_stub]) {\n    match sym::below(%d) {\n%s\n        _ => (),\n    }\n}" % (
+            hname, len(cases), "\n".join("        %d => go(%d, %d)," % (k, n, code) for k, (n, code) in enumerate(cases))))
+    body = prelude.MINIDOM + prelude.TOSTRING_STUB + rxsmt.mock_statics([("IS_UNDERSCORE", pat)]) + f.text + MC_SHIM.replace("MC_HARNESSES", "\n".join(hs))
+    crate = kani_run.Crate("c01mc", body, native_deps={"regex": '"1.10"', "lazy_static": '"1.4"'})
+    maxn = 3 if run.tier == "quick" else 4
+    run.bound("D-C01-i", "merge_chars verbatim with the IS_UNDERSCORE pattern (%r, generated DFA) on every row of 1..%d children, each <mi>_</mi>, <mi>x</mi> or a non-leaf element (model DOM; solver-selected rows)" % (pat, maxn))
+    run.assume("D-C01-i: model DOM (MINIDOM, leaf texts '_' .. '____' kept exactly); IS_UNDERSCORE replaced by the DFA generated from its pattern text")
+
+    def api_mc(vals, out):
+        res = mcprobe([("mathml", "<math><mi>_</mi><mi>_</mi><mfrac><mn>1</mn><mn>2</mn></mfrac></math>")])
+        n = res[0][1].count("_") if res[0][0] == "OK" else -1
+        return n != 2, {"script": "set_mathml(_ _ 1/2): both underscores must survive", "underscores_in_result": n, "result": res[0]}
+    return crate, [dict(id="D-C01-i.merge_chars." + hname.split("merge_chars_")[1], harness=hname, api=api_mc, role=lambda v, o: "underscore-run-loses-characters",
+                        covers=["run of two underscores ended by a non-leaf reachable", "run of two underscores at the end reachable"],
+                        claim="no panic; the number of '_' characters in the row is unchanged; every other child is kept, in order; nothing is added") for hname, _ in groups]
 
 
 # ======================================================================================================================
